@@ -278,3 +278,41 @@ Qed.
 (* the decision never looks at anything but the parent's name and the whitespace flag: in particular
    not at xml:space (GenStrip.consults_xml_space) *)
 Lemma gen_no_xml_space : consults_xml_space = false. Proof. reflexivity. Qed.
+
+(* ---------------------------------------------------------------------------------------------- *)
+(* xsl:number level="any": without a from pattern the count is the number of count-matching nodes at or
+   before the current node, whatever the physical shape *)
+Lemma number_chain_no_from : forall r d, (forall x, In x r -> w_from x = false) ->
+  number_chain d r = length (filter w_count r).
+Proof.
+  intros r. induction r as [|y r IH]; intros d H; cbn [number_chain filter]; [reflexivity|].
+  rewrite (H y (or_introl eq_refl)). rewrite andb_false_r.
+  destruct (w_count y); cbn [length]; rewrite IH; auto; intros x Hx; apply H; right; exact Hx.
+Qed.
+
+Lemma number_any_no_from : forall l, (forall x, In x l -> w_from x = false) ->
+  number_any l = length (filter w_count l).
+Proof.
+  intros l. unfold number_any. induction l as [|x r IH]; intros H; [reflexivity|].
+  cbn [number_target filter]. rewrite (H x (or_introl eq_refl)).
+  destruct (w_count x) eqn:C.
+  - cbn [length]. rewrite number_chain_no_from; auto. intros y Hy. apply H. right. exact Hy.
+  - apply IH. intros y Hy. apply H. right. exact Hy.
+Qed.
+
+Lemma filter_count_walk_strip : forall l, walk_ok l ->
+  filter w_count (walk_strip l) = filter w_count l.
+Proof.
+  intros l. unfold walk_strip. induction l as [|x r IH]; intros H; [reflexivity|].
+  cbn [filter]. destruct (w_stripped x) eqn:S; cbn [negb].
+  - destruct (H x (or_introl eq_refl) S) as [_ C]. rewrite C. apply IH. intros y Hy. apply H. right. exact Hy.
+  - cbn [filter]. destruct (w_count x); [f_equal|]; apply IH; intros y Hy; apply H; right; exact Hy.
+Qed.
+
+Theorem number_any_strip_partial_lemma : forall l, walk_ok l -> (forall x, In x l -> w_from x = false) ->
+  number_any (walk_strip l) = number_any l.
+Proof.
+  intros l Ok NF. rewrite !number_any_no_from; auto.
+  - rewrite filter_count_walk_strip; auto.
+  - intros x Hx. apply NF. unfold walk_strip in Hx. apply filter_In in Hx. tauto.
+Qed.
